@@ -101,6 +101,7 @@ type Enc struct {
 	lv       map[ssa.Value]*lvalue
 	override map[ssa.Value]string
 	closures map[ssa.Value]*ssa.MakeClosure
+	cellClosure map[*ssa.Alloc]*ssa.MakeClosure
 	elemRange map[string]types.Type
 	unescaped map[ssa.Value]bool
 
@@ -162,6 +163,7 @@ func (e *Enc) resetPass() {
 	e.lv = map[ssa.Value]*lvalue{}
 	e.override = map[ssa.Value]string{}
 	e.closures = map[ssa.Value]*ssa.MakeClosure{}
+	e.cellClosure = map[*ssa.Alloc]*ssa.MakeClosure{}
 	if e.elemRange == nil {
 		e.elemRange = map[string]types.Type{}
 	}
